@@ -989,6 +989,8 @@ def binop_object(I, op, sym, a, b):
     if isinstance(op, ast.MatMult):
         sym = "@"
         dn = "matmul"
+    elif isinstance(op, (ast.BitAnd, ast.BitOr, ast.BitXor)):  # user-defined __and__/__or__/__xor__ (rv_ltl.B4, C11)
+        dn = {ast.BitAnd: "and", ast.BitOr: "or", ast.BitXor: "xor"}[type(op)]  # `sym` stays None for the fallbacks
     else:
         dn = DUNDER.get(sym)
     if dn:
@@ -1087,7 +1089,8 @@ def iterate(I, v, lineno=None):
     if isinstance(v, PList):
         return list(v.items)
     if isinstance(v, PSet):
-        return list(v.items)
+        h = getattr(I.registry, "set_order_hook", None)  # models_dyn: nondeterministic set iteration order (C15)
+        return list(v.items) if h is None else h(I, v)
     if isinstance(v, PDict):
         return list(v.keys)
     if isinstance(v, str):
